@@ -12,11 +12,11 @@ PROP = "C09"
 SHRINK = ("segments",)
 LIMITS = {"max_steps": 400_000, "max_vtime": 900.0}
 BUDGET = {
-    "quick": {"runs": 7000, "wall": 150, "chunk": 40, "minimise": 80},
+    "quick": {"runs": 7200, "wall": 150, "chunk": 40, "minimise": 80},
     "thorough": {"runs": 160_000, "wall": 1500, "chunk": 100, "minimise": 150},
 }
 REQUIRED_PROBES = {"quick": ("partial_frame_at_fault", "fault_fin", "fault_rst", "fault_stall_disable",
-                             "reconnected"),
+                             "reconnected", "fault_disable_race"),
                    "thorough": ("partial_frame_at_fault", "fault_fin", "fault_rst", "fault_stall_disable",
                                 "reconnected", "fault_disable_race")}
 EVIDENCE = {
@@ -96,7 +96,7 @@ def _enumeration():
 def gen_plan(rng, tier, index):
     cases = _enumeration()
     plan = {"kind": "cut"}
-    if tier == "quick" or rng.random() < 0.5:
+    if (tier == "quick" and index < 4 * len(cases)) or (tier != "quick" and rng.random() < 0.5):
         si, active, cut, fault = cases[index % len(cases)]
         sched = dict(SCHEDS[(index // len(cases) + rng.randrange(len(SCHEDS))) % len(SCHEDS)])
         spec = canonical_streams()[si]
@@ -229,10 +229,11 @@ def run(sim, plan):
     if plan["kind"] == "disable_race":
         sim.nontrivial = True
         sim.fault("fault_disable_race")
+        racing = None
         if plan.get("peer_connects") and not active:
             # connection attempt races the disable
-            s = hsmsenv.SimSocket(_net=net)
-            sim.spawn(lambda: _try_connect(s), "racing_peer")
+            racing = hsmsenv.SimSocket(_net=net)
+            sim.spawn(lambda: _try_connect(racing), "racing_peer")
         if plan["race_steps"]:
             sim.run_others(plan["race_steps"], max_dt=1.0)
         call = ep.call_async("disable1", ep.proto.disable)
@@ -240,6 +241,10 @@ def run(sim, plan):
             sim.violation("C09.R2", "disable() racing accept/connect did not return within "
                           f"{L} virtual s", sig=_hang_sig(sim, "C09.R2", "disable-race"))
         sim.abstract = ("disable_race", active, min(plan["race_steps"], 50), ep.state)
+        if racing is not None:
+            # the racing peer gives up: it must not occupy the endpoint's single connection during the verification
+            racing.close()
+            sim.advance(1.0)
         _reenable_and_verify(sim, plan, ep, establish, listener, L)
         return
 
